@@ -167,7 +167,7 @@ pub(super) fn idls(
                 }
             }).collect_vec();
 
-            let inner = if account_set_defs.len() == 1 {
+            let inner = if single_set_field.is_some() {
                 account_set_defs[0].clone()
             } else {
                 quote! {
